@@ -137,7 +137,7 @@ def check_readers(ctx):
         f = repo.method(cname, mname, inherited=False)
         ctx.touch(f)
         q = f.qualname
-        cfg = cfg_of(f.node)
+        cfg = cfg_of(normal.normalised(ctx, f, aliases=False, comps=False, ifexp=False))  # `while True: if end: ...; return` is `while not end:`
         heads = [n for n in cfg.nodes if n.kind == "test" and n.label == "while"]
         ctx.require(len(heads) == 1, f"{q}: reader loop not found")
         H = heads[0]
@@ -263,6 +263,10 @@ def check_names_and_numbers(ctx):
     fs = repo.method("Item", "from_sml", inherited=False)
     txt = " ".join(norm(s) for s in rules.func_stmts(fs.node))
     ok = "cls(cls._read_items(sml, cls._read_sml_token))" in txt and "cls(cls._read_sml_token(sml))" in txt
+    if not ok:
+        from .. import refmodels
+
+        ok = refmodels.agrees(ctx, "Item.from_sml")  # another spelling with the summary of the reviewed model
     ctx.ob("C15.T2", fs.qualname, ok, "lists are rebuilt from their parsed members, scalars from their parsed values" if ok else "from_sml does not rebuild items from the reader results", where=fs.where)
     ri = repo.method("Item", "_read_items", inherited=False)
     cfg = cfg_of(ri.node)
